@@ -70,7 +70,7 @@ func c17R1(p *Prog, r *Report) {
 			}
 			a0, a1 := c.Args[0], c.Args[1]
 			isSrc := func(e ast.Expr) bool { return objOf(info, e) == src && src != nil && fc.SoleDef(v.ID, src, unpack.V) }
-			isServer := func(e ast.Expr) bool { return strings.HasSuffix(exprStr(e), ".serverAddrPort") }
+			isServer := func(e ast.Expr) bool { return strings.HasSuffix(exprStr(fc.ResolveUp(e)), ".serverAddrPort") }
 			if (isSrc(a0) && isServer(a1)) || (isSrc(a1) && isServer(a0)) {
 				for _, e := range v.Succs {
 					if e.Label == LTrue {
